@@ -22,8 +22,9 @@ VARIABLES ver,        \* state version of the fit
           results,    \* the fit holds valid results
           plotAt,     \* version at which the Plot object was constructed (0 = no plot yet, versions start at 1)
           nfits,      \* fits on the plot
+          joint,      \* the two fits are the members of one MultiFit (plotted through it; the legend then has "global" lines)
           act, obs
-vars == <<ver, results, plotAt, nfits, act, obs>>
+vars == <<ver, results, plotAt, nfits, joint, act, obs>>
 Bounded(name) == TLCGet("level") <= MaxDepth /\ name \notin Off
 
 (* the wiring table: artist -> what it must equal *)
@@ -50,31 +51,34 @@ PanelRules(panel) ==
     [] panel = "pull" -> {[artist |-> "pull", y |-> "(data-model)/total"]}
 Rules(panel, res) == MainRules(res) \cup PanelRules(panel) \cup {[artist |-> "legend", text |-> "formatted_results_of_the_fit"]}
 
-Init == ver = 1 /\ results = FALSE /\ plotAt = 0 /\ nfits \in {1, 2} /\ act = [name |-> "Init", fit |-> FitType, cost |-> Cost, nfits |-> nfits] /\ obs = [kind |-> "none"]
+Init == /\ ver = 1 /\ results = FALSE /\ plotAt = 0 /\ nfits \in {1, 2} /\ joint \in BOOLEAN
+        /\ (joint => nfits = 2 /\ FitType \in {"xy", "indexed", "hist"})
+        /\ act = [name |-> "Init", fit |-> FitType, cost |-> Cost, nfits |-> nfits, joint |-> joint] /\ obs = [kind |-> "none"]
 
 Mutate(m) ==
   /\ Bounded("Mutate") /\ m \in {"SetPar", "AddError", "SetData"}
   /\ (m = "AddError" => FitType # "unbinned")
+  /\ (joint => m = "SetPar")               \* members of a multi-fit: only their (shared) parameters are changed here
   /\ ver' = ver + 1 /\ results' = FALSE
   /\ act' = [name |-> "Mutate", m |-> m] /\ obs' = [kind |-> "none"]
-  /\ UNCHANGED <<plotAt, nfits>>
+  /\ UNCHANGED <<plotAt, nfits, joint>>
 DoFit ==
   /\ Bounded("DoFit") /\ ~results
   /\ ver' = ver + 1 /\ results' = TRUE
   /\ act' = [name |-> "DoFit"] /\ obs' = [kind |-> "none"]
-  /\ UNCHANGED <<plotAt, nfits>>
+  /\ UNCHANGED <<plotAt, nfits, joint>>
 MakePlot ==
   /\ Bounded("MakePlot") /\ plotAt = 0
   /\ plotAt' = ver
   /\ act' = [name |-> "MakePlot"] /\ obs' = [kind |-> "none"]
-  /\ UNCHANGED <<ver, results, nfits>>
+  /\ UNCHANGED <<ver, results, nfits, joint>>
 Draw(panel, asym, xlog, ylog, separate) ==
   /\ Bounded("Draw") /\ plotAt # 0 /\ panel \in Panels
-  /\ (asym => results) /\ (separate => nfits = 2) /\ (xlog => FitType = "xy")      \* the histogram catalogue starts at 0: a log axis is refused there
+  /\ (asym => results /\ ~joint) /\ (separate => nfits = 2) /\ (xlog => FitType = "xy")      \* the histogram catalogue starts at 0: a log axis is refused there
   /\ (ylog => panel = "none")
   /\ obs' = [kind |-> "drawn", shows |-> IF "adapter_snapshots_fit" \in Faults THEN plotAt ELSE ver, rules |-> Rules(panel, results)]
   /\ act' = [name |-> "Draw", panel |-> panel, asym |-> asym, xlog |-> xlog, ylog |-> ylog, separate |-> separate]
-  /\ UNCHANGED <<ver, results, plotAt, nfits>>
+  /\ UNCHANGED <<ver, results, plotAt, nfits, joint>>
 Next ==
   \/ \E m \in {"SetPar", "AddError", "SetData"} : Mutate(m)
   \/ DoFit \/ MakePlot
